@@ -28,6 +28,7 @@ struct prog {
   volatile long kinds[K_N];
   volatile int begun, done, synced, in_op, forced, crash_kind, crash_wal, crash_len0;
   volatile int obs_n;          // checkpoints observed (observe mode)
+  volatile int ntrunc, stores; // log truncations so far; record stores since the last one
   char result[512];
 };
 static struct prog *P;
@@ -76,6 +77,7 @@ static void obs_snap(const char *what) {
 static void record_point(void) {
   // a record is about to be stored into the shared mapping of the main file
   effect(K_RECORD, 1, 0);
+  if (counting) P->stores++;
 }
 // the data listener's resize hook starts the checkpoint-without-savepoint (growth inside put, tail trim inside close)
 static iwrc (*orig_onresize)(struct iwdlsnr*, off_t, off_t, int, bool*);
@@ -89,6 +91,7 @@ int __wrap_ftruncate64(int fd, off_t len) {
   int cls = fd_class(fd);
   if (observe && counting && cls == 2 && len == 0) { obs_snap("wal"); obs_snap("post"); P->obs_n++; }
   effect(K_FTRUNC, cls, len == 0);
+  if (counting && cls == 2 && len == 0) { P->ntrunc++; P->stores = 0; }
   return __real_ftruncate64(fd, len);
 }
 int __wrap_fsync(int fd) {
@@ -248,6 +251,10 @@ int main(int argc, char **argv) {
       printf("crash k=%ld st=%d at=%s%s%s begun=%d done=%d synced=%d forced=%d", k1, st, st == 137 ? KN[P->crash_kind] : "none",
              st == 137 ? (P->crash_wal ? ".wal" : ".main") : "", (st == 137 && P->crash_len0) ? ".0" : "", P->begun, P->done, P->synced, P->forced);
       struct prog keep = *P;
+      if (st == 137 && P->crash_kind == K_RECORD) {   // the main file as the killed checkpoint left it
+        size_t mn; uint8_t *m = slurp(kvpath, &mn);
+        printf(" ck=%d stores=%d cmsz=%zu cmh=%016" PRIx64, P->ntrunc, P->stores, mn, fnv(FNV0, m, mn)); free(m);
+      }
       if (n == 3) {      // die inside the recovery too, then recover again
         P->effects = 0; P->result[0] = 0;
         int st2 = spawn_wait(reopen2, crc, 0, atol(w[2]));
@@ -257,6 +264,8 @@ int main(int argc, char **argv) {
       int st3 = spawn_wait(reopen2, crc, 0, -1);
       if (st3 == 0 && P->result[0]) printf(" | %s\n", P->result); else printf(" | open=DIED:%d\n", st3);
       (void) keep;
+    } else if (!strcmp(w[0], "partial") && n == 7) {  // partial <pre> <wal> <k> <crc> <msz> <mh>: echo of what a killed checkpoint left
+      printf("partial msz=%s mh=%s\n", w[5], w[6]);
     } else if (!strcmp(w[0], "ckpt") && n == 4) {     // ckpt <pre> <wal> <post>: what the real checkpoint left in the main file
       size_t mn; uint8_t *m = slurp(w[3], &mn);
       if (!m) printf("ckpt missing\n"); else printf("ckpt rc=ok msz=%zu mh=%016" PRIx64 "\n", mn, fnv(FNV0, m, mn));
